@@ -65,13 +65,20 @@ def _int_values(code):
     return st.one_of(st.sampled_from(edge), st.integers(lo, hi))
 
 
-_text = st.text(
+_plain_text = st.text(
     alphabet=st.one_of(
         st.sampled_from(list('abcXYZ019 _-/.:,\'"=\r\n\\é€😀ÿĀ')),
         st.characters(blacklist_categories=('Cs',), blacklist_characters='\x00'),
     ),
     max_size=12,
 )
+# strings some text-handling layer is known to mangle: a byte-order mark in front (codecs 'utf-8-sig' strips it), BOM
+# elsewhere, non-characters, the last code point, bidi / zero-width / line separators, combining sequences, lone
+# controls, text that looks like an escape or a number
+_EDGE_TEXT = ['\ufeff', '\ufeffabc', 'a\ufeff', '\ufeff\ufeff', '\ufffe', '\uffff', '\U0010ffff', '\U00010000', '\ud7ff\ue000',
+              '\u2028\u2029', '\u200e\u200f\u202e', '\u200b', 'e\u0301', '\x01', '\x7f', '\x1b[0m', '\\x00', '%s%d', '0x10',
+              ' lead', 'trail ', '\t', '\r', '\n', '\r\n', "'", '"', 'A' * 255, 'A' * 256]
+_text = st.one_of(_plain_text, _plain_text, _plain_text, st.sampled_from(_EDGE_TEXT))
 
 _path_el = st.text(alphabet='abzAZ09_', min_size=1, max_size=4)
 object_path = st.one_of(
